@@ -136,7 +136,7 @@ def _parse_params(c, params):
 def contract(key, module=None, qual=None, params=None, returns=None, requires=(), ensures=(),
              raises=None, modifies=(), loops=None, yields=False, pure=False, props=(),
              kind='repo', model=None, defaults=None, free_requires=(), notes='',
-             locals=None, verify=True, lemmas=(), reads=(), checks=()):
+             locals=None, verify=True, lemmas=(), reads=(), checks=(), scope_timeouts=()):
     c = Contract(key)
     c.kind = kind
     c.module = module
@@ -160,6 +160,7 @@ def contract(key, module=None, qual=None, params=None, returns=None, requires=()
     c.verify = verify
     c.lemmas = list(lemmas)
     c.reads = list(reads)
+    c.scope_timeouts = list(scope_timeouts)
     c.checks = list(checks)      # proved at every normal exit, not exported to callers
     c.locals = {k: T.parse_type(v) for k, v in (locals or {}).items()}
     CONTRACTS[key] = c
